@@ -1,5 +1,6 @@
 import PsiModel.Stages
 import Drivers.Common
+import Drivers.StagesExt
 /-!
 Driver of the `Stages` model (C12).  Sample values are symbolic cells:
 `X k` input column k, `F k` k-th output of the whole-stream filter, `B lo hi` block function of
@@ -209,5 +210,20 @@ def step (s : St) (ws : List String) : St × String :=
     | _, _, _, _ => (s, "bad-op")
   | _ => (s, "bad-op")
 
-def main : IO Unit := run {} step
+/-- lines whose first word starts with `x` belong to the extension model (EXT12: stages that C12 does not name,
+`Drivers/StagesExt.lean`); every other line is handled exactly as before -/
+def stepAll (s : St × StagesExt.St) (ws : List String) : (St × StagesExt.St) × String :=
+  match ws with
+  | w :: _ =>
+    if w.startsWith "x" then
+      let r := StagesExt.step s.2 ws
+      ((s.1, r.1), r.2)
+    else
+      let r := step s.1 ws
+      ((r.1, s.2), r.2)
+  | [] =>
+    let r := step s.1 ws
+    ((r.1, s.2), r.2)
+
+def main : IO Unit := run ({}, {}) stepAll
 end Psi.Driver.Stages
